@@ -1193,39 +1193,50 @@ def corr_requests_params(chk, rng, n, corpus=()):
 # coverage phase: Template._serialize
 # ----------------------------------------------------------------------------------------
 def corr_coverage_template(chk, rng, n):
+    """Template.unmodified() three times in a row (path and query containers) vs template_nth / template_query_nth."""
     from schemathesis.generation.hypothesis.builder import Template
     from schemathesis.specs.openapi.serialization import serialize_openapi3_parameters
 
     cases = []
-    for _ in range(n):
-        defs = [rand_def3(rng, nm, "path") for nm in rng.sample(["id", "k", "z"], rng.choice([0, 1, 2]))]
-        item = {}
-        for d in defs:
-            item[d["name"]] = rand_value(rng, shape_for(d) if rng.random() < 0.85 else None)
-        if rng.random() < 0.6 or not item:
-            item["p"] = rand_value(rng, "prim")
-        cases.append((defs, item))
+    for k in range(n):
+        loc = "path" if k % 2 == 0 else "query"
+        if k % 10 == 1:
+            defs = [{"name": "o", "in": "query", "style": "form", "explode": False, "schema": {"type": "object"}}]
+            item = {"o": rand_value(rng, "obj"), "page": rng.choice([0, 1, None, True])}
+        else:
+            defs = [rand_def3(rng, nm, loc) for nm in rng.sample(["id", "k", "z"], rng.choice([0, 1, 2]))]
+            item = {}
+            for d in defs:
+                item[d["name"]] = rand_value(rng, shape_for(d) if rng.random() < 0.85 else None)
+            if rng.random() < 0.6 or not item:
+                item["p"] = rand_value(rng, "prim" if loc == "path" else None)
+        cases.append((loc, defs, item))
     exprs = []
-    for defs, item in cases:
+    for loc, defs, item in cases:
         ds = clist([c_def3(d) for d in defs], "definition")
-        exprs.append("[" + "; ".join(f"template_nth {ds} {i}%nat {c_item(item)}" for i in range(3)) + "]")
+        fn = "template_nth" if loc == "path" else "template_query_nth"
+        exprs.append("[" + "; ".join(f"{fn} {ds} {i}%nat {c_item(item)}" for i in range(3)) + "]")
     skipped = 0
-    for (defs, item), ms in zip(cases, core.coq_eval(IMPORTS, exprs)):
+    for (loc, defs, item), ms in zip(cases, core.coq_eval(IMPORTS, exprs)):
         if any(m is None for m in ms):
             skipped += 1
             continue
+        container = "path_parameters" if loc == "path" else "query"
         serializer = serialize_openapi3_parameters(copy.deepcopy(defs))
-        tmpl = Template(serializers={} if serializer is None else {"path_parameters": serializer})
-        tmpl._template["path_parameters"] = copy.deepcopy(item)
+        tmpl = Template(serializers={} if serializer is None else {container: serializer})
+        tmpl._template[container] = copy.deepcopy(item)
         try:
-            impl = [canon_item(tmpl.unmodified().kwargs["path_parameters"]) for _ in range(3)]
+            impl = [canon_item(tmpl.unmodified().kwargs[container]) for _ in range(3)]
+            if canon_item(tmpl._template[container]) != canon_item(item):
+                impl = {"template_modified": canon_item(tmpl._template[container])}
         except Exception as exc:  # noqa: BLE001
             impl = f"raises {type(exc).__name__}"
         mod = [canon_item(p_item(m[1])) for m in ms]
-        inp = {"definitions": defs, "path_parameters": canon_item(item)}
-        chk.seen({"coverage_template": inp}, mod[0] != mod[1])
+        inp = {"container": container, "definitions": defs, "template": canon_item(item)}
+        chk.seen({"coverage_template": inp}, serializer is not None or mod[0] != canon_item(item))
+        chk.count(f"coverage_template:{container}:" + ("serializer" if serializer is not None else "plain"))
         if impl != mod:
-            chk.disagree("Template._serialize (three successive cases) vs Model_C06.template_nth", inp, impl, mod)
+            chk.disagree("Template._serialize (three successive cases, template left alone) vs Model_C06.template_nth / template_query_nth", inp, impl, mod)
     chk.stages["correspondence_coverage_template"] = {"cases": len(cases), "unmodelled_or_raising": skipped}
 
 
@@ -1236,9 +1247,10 @@ def py_quote_stable(s: str) -> bool:
     return all(c in UNRESERVED for c in s) and s not in (".", "..")
 
 
-def coverage_path_values(value: str, style=None):
-    """path values of the positive coverage cases of an operation whose path parameter can only be `value`
-    (several cases per operation: the two query parameters give boundary / enum variations)."""
+def coverage_cases(value: str, style=None, obj_value="v"):
+    """(path value, query) of the positive coverage cases of an operation whose path parameter can only be `value` and whose
+    query object parameter `o` (style form, explode false) can only be {"k": obj_value}; several cases per operation: the
+    other two query parameters give boundary / enum variations."""
     import schemathesis
     from schemathesis.generation import GenerationMode
     from schemathesis.generation.hypothesis.builder import _iter_coverage_cases
@@ -1247,11 +1259,21 @@ def coverage_path_values(value: str, style=None):
     if style is not None:
         pdef["style"] = style
     params = [pdef]
+    params.append({"name": "o", "in": "query", "required": True, "style": "form", "explode": False,
+                   "schema": {"type": "object", "properties": {"k": {"type": "string", "enum": [obj_value]}}, "required": ["k"], "additionalProperties": False}})
     params.append({"name": "q", "in": "query", "schema": {"type": "integer", "minimum": 1, "maximum": 5}})
     params.append({"name": "r", "in": "query", "schema": {"type": "string", "enum": ["x", "y"]}})
     raw = {"openapi": "3.0.2", "info": {"title": "t", "version": "1"}, "paths": {"/items/{id}": {"get": {"parameters": params, "responses": {"200": {"description": "ok"}}}}}}
     op = schemathesis.openapi.from_dict(raw)["/items/{id}"]["GET"]
-    return [case.path_parameters["id"] for case in _iter_coverage_cases(op, [GenerationMode.POSITIVE]) if case.path_parameters and "id" in case.path_parameters]
+    out = []
+    for case in _iter_coverage_cases(op, [GenerationMode.POSITIVE]):
+        if case.path_parameters and "id" in case.path_parameters:
+            out.append((case.path_parameters["id"], dict(case.query or {})))
+    return out
+
+
+def coverage_path_values(value: str, style=None):
+    return [p for p, _ in coverage_cases(value, style)]
 
 
 COVERAGE_STYLE_SFUN = {None: None, "simple": None, "label": "FLabelPrim", "matrix": "FMatrixPrim"}
@@ -1268,11 +1290,20 @@ def coverage_case_carries(text: str, value: str, style) -> bool:
         return False
 
 
+def coverage_query_carries(query: dict, obj_value: str) -> bool:
+    if "o" not in query:
+        return True  # the case leaves the parameter out
+    try:
+        return isinstance(query["o"], str) and py_style_decode("FCommaObj", "o", query["o"]) == [("k", obj_value)]
+    except Undecodable:
+        return False
+
+
 def oracle_coverage_phase(chk, rng, n):
-    """Every positive coverage case must carry the (only possible) path value: decode what each case holds.
-    Without a path style serializer no case may fail (C06_coverage_case_roundtrip; C06-F9 is fixed); with one, the cases after
-    the first are inside the listed region coverage_serializer_reapplied (C06_coverage_serializer_reapplied_refuted)."""
-    stats = {"operations": 0, "coverage_cases": 0, "operations_with_several_cases": 0, "values_changed_by_quoting": 0, "cases_not_carrying_the_value": 0}
+    """Every positive coverage case must carry the (only possible) path value and the (only possible) form/no-explode query object,
+    whatever its index (C06_coverage_template_pure, C06_coverage_case_roundtrip; C06-F9 and C06-F10 are fixed): no listed region."""
+    stats = {"operations": 0, "coverage_cases": 0, "operations_with_several_cases": 0, "values_changed_by_quoting": 0,
+             "with_path_style_serializer": 0, "cases_not_carrying_the_value": 0}
     for k in range(n):
         if k % 4 == 0:
             value = rng.choice(["a b%c", "a+b", "100%", "é ü", "x&y=z", "a b"])
@@ -1282,28 +1313,28 @@ def oracle_coverage_phase(chk, rng, n):
             value = "".join(ch for ch in rand_text(rng, 6) if ch not in "/{}" and not 0xD800 <= ord(ch) <= 0xDFFF)
         if value in ("", ".", ".."):
             continue
-        style = rng.choice([None, None, "simple", "label", "matrix"])
+        style = [None, "label", "matrix", "simple", "label", "matrix"][k % 6]
+        obj_value = rng.choice(["v", "a b", "x=1", "é"])
         try:
-            got = coverage_path_values(value, style)
+            got = coverage_cases(value, style, obj_value)
         except Exception as exc:  # noqa: BLE001
             chk.count(f"coverage:skipped:{type(exc).__name__}")
             continue
         stats["operations"] += 1
         stats["operations_with_several_cases"] += len(got) >= 2
         stats["values_changed_by_quoting"] += not py_quote_stable(value)
+        stats["with_path_style_serializer"] += COVERAGE_STYLE_SFUN[style] is not None
         chk.count(f"coverage:style={style}")
-        for i, text in enumerate(got):
+        for i, (text, query) in enumerate(got):
             stats["coverage_cases"] += 1
-            chk.seen({"coverage_case": [value, style, i]}, not py_quote_stable(value))
+            chk.seen({"coverage_case": [value, style, obj_value, i]}, not py_quote_stable(value) or COVERAGE_STYLE_SFUN[style] is not None)
+            inp = {"value": value, "style": style, "query_object": {"k": obj_value}, "case_index": i}
             if not coverage_case_carries(text, value, style):
                 stats["cases_not_carrying_the_value"] += 1
-                region = None
-                if COVERAGE_STYLE_SFUN[style] is not None and i >= 1:
-                    region = "coverage_serializer_reapplied"
-                elif " " in value and COVERAGE_STYLE_SFUN[style] is None:
-                    region = None  # the form reading used here maps + back to the space: nothing excuses a failure
-                chk.fail("coverage case does not carry the path value of its operation", {"value": value, "style": style, "case_index": i},
-                         {"path_value_in_case": text, "all_cases": got[:4]}, region=region)
+                chk.fail("coverage case does not carry the path value of its operation", inp, {"path_value_in_case": text, "all_cases": [p for p, _ in got[:4]]})
+            if not coverage_query_carries(query, obj_value):
+                stats["cases_not_carrying_the_value"] += 1
+                chk.fail("coverage case does not carry the query object (form, explode=false) of its operation", inp, {"query_in_case": query, "all_cases": [q.get("o") for _, q in got[:4]]})
     return stats
 
 
@@ -1448,9 +1479,10 @@ def witness_fails(w, rec=None) -> bool:
             status, problems = oracle_once(rec, c["defs"], c["values"], c.get("call_headers"), c.get("body"), c.get("media_type"), infos)
             return status == "sent" and any(region == w["region"] for _, region, _ in problems)
         if kind == "coverage_requote":
-            got = coverage_path_values(w["value"], w.get("style"))
             style = w.get("style")
-            return len(got) >= 2 and coverage_case_carries(got[0], w["value"], style) and not all(coverage_case_carries(g, w["value"], style) for g in got[1:])
+            got = coverage_cases(w["value"], style)
+            assert len(got) >= 2, "the witness needs several coverage cases"
+            return not all(coverage_case_carries(p, w["value"], style) and coverage_query_carries(q, "v") for p, q in got)
         if kind == "label_falsy":
             from schemathesis.specs.openapi.serialization import label_primitive
 
